@@ -495,16 +495,15 @@ Fixpoint inline (fuel : nat) (cat : catalog) (h : heap) (n : nat) : option tree 
       end
   end.
 
-(* the reply content of the inlined body: the children of the first root *)
-Definition inline_reply (fuel : nat) (h : heap) (b : nat) : option (option (list tree)) :=
-  let rc := build_catalog h (n_kids (getn h b)) [] [] in
-  match fst rc with
-  | [] => Some None
-  | r :: _ =>
-      match inline fuel (snd rc) h r with
-      | None => None
-      | Some t => Some (Some (t_kids t))
-      end
+(* the reply content when `r` is the rpc response element: the children of
+   r with every reference replaced *)
+Definition the_catalog (h : heap) (b : nat) : catalog := snd (build_catalog h (n_kids (getn h b)) [] []).
+Definition the_roots (h : heap) (b : nat) : list nat := fst (build_catalog h (n_kids (getn h b)) [] []).
+
+Definition inline_reply (fuel : nat) (h : heap) (b r : nat) : option (list tree) :=
+  match inline fuel (the_catalog h b) h r with
+  | None => None
+  | Some t => Some (t_kids t)
   end.
 
 (* pure decoding of a tree: applyaty is a map over the children *)
@@ -562,11 +561,11 @@ Definition decode_reply (fuel : nat) (S : schema) (ret : qn) (nodes : option (li
       end
   end.
 
-(* SPEC of the whole: inline, then decode *)
-Definition spec_reply (fuel : nat) (S : schema) (ret : qn) (h : heap) (b : nat) : dres :=
-  match inline_reply fuel h b with
+(* SPEC of the whole: inline the response element, then decode *)
+Definition spec_reply (fuel : nat) (S : schema) (ret : qn) (h : heap) (b r : nat) : dres :=
+  match inline_reply fuel h b r with
   | None => DErr E_REC
-  | Some nodes => decode_reply fuel S ret nodes
+  | Some nodes => decode_reply fuel S ret (Some nodes)
   end.
 
 (* ------------------------------------------------------------------ *)
@@ -652,14 +651,12 @@ Definition dres_eqb (a b : dres) : bool :=
 (* the guard of the equivalence theorem, executable                    *)
 (* ------------------------------------------------------------------ *)
 
-(* every body child other than the first is marked SOAP-ENC:root other than '1' ... *)
-Definition marked (h : heap) (c : nat) : bool := negb (soaproot (getn h c)).
-
-(* ... or the response element comes first: the first root is the first child *)
-Definition first_is_root (h : heap) (b : nat) : bool :=
-  match n_kids (getn h b) with
-  | [] => true
-  | c :: _ => soaproot (getn h c)
+(* the response element is the first serialization root of the Body: every
+   independent element before it is marked SOAP-ENC:root other than '1' *)
+Definition first_root_is (h : heap) (b r : nat) : bool :=
+  match the_roots h b with
+  | x :: _ => Nat.eqb x r
+  | [] => false
   end.
 
 (* referenced elements are not themselves references, nobody has two href attributes,
@@ -672,8 +669,7 @@ Definition one_href (nd : node) : bool :=
   end.
 
 Definition wf_refs (h : heap) (b : nat) : bool :=
-  let rc := build_catalog h (n_kids (getn h b)) [] [] in
-  forallb (fun kv => no_href (getn h (snd kv))) (snd rc) &&
+  forallb (fun kv => no_href (getn h (snd kv))) (the_catalog h b) &&
   forallb one_href h &&
   no_href (getn h b).
 
@@ -697,24 +693,46 @@ Definition mr_agrees (c : mcase) : bool :=
   dres_eqb (get_reply (c_fuel c) (c_schema c) (c_ret c) (c_in c) (c_in_body c)) (c_rin c) &&
   dres_eqb (get_reply (c_fuel c) (c_schema c) (c_ret c) (c_out c) (c_out_body c)) (c_rout c).
 
+(* the rpc response element of the out-lined body: the body child named like
+   the only child of the in-line body *)
+Definition find_named (h : heap) (b : nat) (ns nm : N) : option nat :=
+  find (fun c => N.eqb (n_ns (getn h c)) ns && N.eqb (n_name (getn h c)) nm) (n_kids (getn h b)).
+
+Definition resp_of (c : mcase) : option nat :=
+  match n_kids (getn (c_in c) (c_in_body c)) with
+  | [r] => find_named (c_out c) (c_out_body c) (n_ns (getn (c_in c) r)) (n_name (getn (c_in c) r))
+  | _ => None
+  end.
+
 (* the property on the implementation's own outputs: same result for both
-   forms, and that result shows the value *)
+   forms, that result shows the value, and it is the decoding of the response
+   element with every reference replaced *)
 Definition mr_same (c : mcase) : bool := dres_eqb (c_rout c) (c_rin c).
 Definition mr_shows (c : mcase) : bool :=
   match c_rin c with DOk p => shows (c_value c) p | DErr _ => false end.
-Definition mr_spec_ok (c : mcase) : bool :=
-  mr_same c && mr_shows c &&
-  dres_eqb (spec_reply (c_fuel c) (c_schema c) (c_ret c) (c_out c) (c_out_body c)) (c_rout c).
+Definition mr_inlined (c : mcase) : bool :=
+  match resp_of c with
+  | None => false
+  | Some r => dres_eqb (spec_reply (c_fuel c) (c_schema c) (c_ret c) (c_out c) (c_out_body c) r) (c_rout c)
+  end.
+Definition mr_spec_ok (c : mcase) : bool := mr_same c && mr_shows c && mr_inlined c.
 
 (* inside the guard of multiref_equiv? *)
 Definition mr_guard (c : mcase) : bool :=
-  wf_refs (c_out c) (c_out_body c) && first_is_root (c_out c) (c_out_body c).
+  match resp_of c with
+  | None => false
+  | Some r => wf_refs (c_out c) (c_out_body c) && first_root_is (c_out c) (c_out_body c) r
+  end.
 
 (* the theorem's own instance, evaluated: model on the heap = spec on the tree *)
 Definition mr_instance (c : mcase) : bool :=
-  negb (mr_guard c) ||
-  dres_eqb (get_reply (c_fuel c) (c_schema c) (c_ret c) (c_out c) (c_out_body c))
-           (spec_reply (c_fuel c) (c_schema c) (c_ret c) (c_out c) (c_out_body c)).
+  match resp_of c with
+  | None => false
+  | Some r =>
+      negb (mr_guard c) ||
+      dres_eqb (get_reply (c_fuel c) (c_schema c) (c_ret c) (c_out c) (c_out_body c))
+               (spec_reply (c_fuel c) (c_schema c) (c_ret c) (c_out c) (c_out_body c) r)
+  end.
 
 (* generator sanity (no implementation involved): the in-line document the
    harness wrote IS the out-lined one with every reference replaced, up to the
@@ -752,23 +770,13 @@ Fixpoint tree_eqb (a b : tree) {struct a} : bool :=
          end) ks ks'
   end.
 
-(* the response element: the body child named like the only child of the in-line body *)
-Definition inline_of_named (fuel : nat) (h : heap) (b : nat) (ns nm : N) : option tree :=
-  let rc := build_catalog h (n_kids (getn h b)) [] [] in
-  match find (fun c => N.eqb (n_ns (getn h c)) ns && N.eqb (n_name (getn h c)) nm) (n_kids (getn h b)) with
-  | None => None
-  | Some r => inline fuel (snd rc) h r
-  end.
-
 Definition gen_ok (c : mcase) : bool :=
-  match n_kids (getn (c_in c) (c_in_body c)) with
-  | [r] =>
-      let ns := n_ns (getn (c_in c) r) in
-      let nm := n_name (getn (c_in c) r) in
-      match inline_of_named (c_fuel c) (c_out c) (c_out_body c) ns nm,
-            inline_of_named (c_fuel c) (c_in c) (c_in_body c) ns nm with
+  match n_kids (getn (c_in c) (c_in_body c)), resp_of c with
+  | [r], Some r' =>
+      match inline (c_fuel c) (the_catalog (c_out c) (c_out_body c)) (c_out c) r',
+            inline (c_fuel c) (the_catalog (c_in c) (c_in_body c)) (c_in c) r with
       | Some a, Some b => tree_eqb a b
       | _, _ => false
       end
-  | _ => false
+  | _, _ => false
   end.
